@@ -1,0 +1,12 @@
+//go:build verif
+
+package persisters
+
+// VerifClose closes the underlying database handle (the persister has no Close of its own; verification harnesses create thousands of instances)
+func (p *MetadataPersister) VerifClose() error {
+	if p.sqlite == nil || p.sqlite.DB == nil {
+		return nil
+	}
+
+	return p.sqlite.DB.Close()
+}
